@@ -294,6 +294,18 @@ trait GraphQuery {
     where
         Constant: TypedConstant<T>;
 
+    /// Extract the value of a single-element constant which is combined with
+    /// the value `other_id` by a broadcasting binary operator.
+    ///
+    /// A single-element tensor can have any rank. It only acts as a scalar if
+    /// it has no more dimensions than the other operand, as otherwise
+    /// broadcasting raises the rank of the result. Returns `None` if the
+    /// constant has dimensions and `other_id` is not known to have at least as
+    /// many.
+    fn get_broadcast_scalar<T>(&self, node_id: NodeId, other_id: NodeId) -> Option<T>
+    where
+        Constant: TypedConstant<T>;
+
     /// Extract the vector value from a constant node.
     fn get_vector<T>(&self, node_id: NodeId) -> Option<&[T]>
     where
@@ -318,6 +330,17 @@ impl GraphQuery for Graph {
             Node::Constant(const_node) => const_node.as_scalar(),
             _ => None,
         })
+    }
+
+    fn get_broadcast_scalar<T>(&self, node_id: NodeId, other_id: NodeId) -> Option<T>
+    where
+        Constant: TypedConstant<T>,
+    {
+        let ndim = self.get_rank(node_id)?;
+        if ndim > 0 && !self.get_rank(other_id).is_some_and(|other| other >= ndim) {
+            return None;
+        }
+        self.get_scalar(node_id)
     }
 
     fn get_vector<T>(&self, node_id: NodeId) -> Option<&[T]>
@@ -653,8 +676,9 @@ impl PatternFusion for SwishFusion {
 
     fn maybe_fuse(&self, pat_match: &Match, g: &Graph) -> Result<Swish, FusionError> {
         let alpha_input = pat_match.node_id("alpha").expect("missing symbol");
+        let x_input = pat_match.node_id("x").expect("missing symbol");
         let alpha = g
-            .get_scalar(alpha_input)
+            .get_broadcast_scalar(alpha_input, x_input)
             .ok_or(FusionError::CheckFailed("alpha not a scalar"))?;
         Ok(Swish { alpha })
     }
@@ -776,9 +800,13 @@ impl PatternFusion for LayerNormalizationFusion {
             return Err(FusionError::CheckFailed("not applied to last axis"));
         }
 
+        // Epsilon is added to the output of the `norm_mean` operator.
         let epsilon_input = pat_match.node_id("epsilon").unwrap();
         let epsilon = graph
-            .get_scalar(epsilon_input)
+            .get_node(norm_mean)
+            .and_then(|n| n.as_operator())
+            .and_then(|op| op.output_ids().first().copied().flatten())
+            .and_then(|variance| graph.get_broadcast_scalar(epsilon_input, variance))
             .ok_or(FusionError::CheckFailed("epsilon not a scalar"))?;
 
         Ok(LayerNormalization {
@@ -830,11 +858,15 @@ impl PatternFusion for RMSNormalizationFusion {
     }
 
     fn maybe_fuse(&self, rms_match: &Match, graph: &Graph) -> Result<Self::Operator, FusionError> {
+        // Epsilon is added to the output of the `norm_mean` operator.
+        let norm_mean = rms_match.node_id("norm_mean").unwrap();
         let epsilon_input = rms_match.node_id("epsilon").unwrap();
         let epsilon = graph
-            .get_scalar(epsilon_input)
+            .get_node(norm_mean)
+            .and_then(|n| n.as_operator())
+            .and_then(|op| op.output_ids().first().copied().flatten())
+            .and_then(|mean_square| graph.get_broadcast_scalar(epsilon_input, mean_square))
             .ok_or(FusionError::CheckFailed("epsilon not a scalar"))?;
-        let norm_mean = rms_match.node_id("norm_mean").unwrap();
 
         if !op_applied_to_last_axis::<ReduceMean>(graph, norm_mean) {
             return Err(FusionError::CheckFailed("not applied to last axis"));
@@ -933,8 +965,8 @@ impl FusionVisitor for MatMulScaleFusion {
             }
 
             let [lhs, rhs] = binary_op_input_ids(op_node)?;
-            let lhs_scalar = graph.get_scalar(lhs);
-            let rhs_scalar = graph.get_scalar(rhs);
+            let lhs_scalar = graph.get_broadcast_scalar(lhs, rhs);
+            let rhs_scalar = graph.get_broadcast_scalar(rhs, lhs);
 
             match op_type {
                 "Mul" => match (lhs_scalar, rhs_scalar) {
